@@ -889,5 +889,6 @@ def rule_unit(ctx):
 
 
 def rules(tier):
-    from . import iteroverride
-    return [iteroverride.make_rule("R-C02-iter", {"linfa"}, 3, "the linfa crate (sample, feature / target and chunk iterators of a dataset)"), rule_align, rule_filter, rule_columns, rule_layout, rule_domain, rule_memorder, rule_extent, rule_search, rule_counted, rule_unit]
+    from . import iteroverride, intnarrow
+    return [intnarrow.make_rule("R-C02-narrow", lambda f: f["d"]["krate"] == "linfa" and "dataset" in fn_file(f), "the dataset code of the linfa crate"),
+            iteroverride.make_rule("R-C02-iter", {"linfa"}, 3, "the linfa crate (sample, feature / target and chunk iterators of a dataset)"), rule_align, rule_filter, rule_columns, rule_layout, rule_domain, rule_memorder, rule_extent, rule_search, rule_counted, rule_unit]
